@@ -123,4 +123,80 @@ theorem toPoly_companionRow (c0 : F) (rest : List F) (h0 : c0 ≠ 0) :
   rw [this, toPoly_cons]
   have hc : C c0 * C (1 / c0) = (1 : F[X]) := by rw [← C_mul]; simp [h0]
   linear_combination (toPoly rest) * hc
+
+theorem dropWhile_head (c : List F) (hnz : ∃ x ∈ c, x ≠ 0) :
+    ∃ c0 rest, c.dropWhile isZ = c0 :: rest ∧ c0 ≠ 0 := by
+  induction c with
+  | nil => simp at hnz
+  | cons a c ih =>
+    by_cases ha : a = 0
+    · have h' : ∃ x ∈ c, x ≠ 0 := by
+        obtain ⟨x, hx, hx0⟩ := hnz
+        rcases List.mem_cons.mp hx with rfl | hx
+        · exact absurd ha hx0
+        · exact ⟨x, hx, hx0⟩
+      obtain ⟨c0, rest, h1, h2⟩ := ih h'
+      exact ⟨c0, rest, by simp [isZ, ha, h1], h2⟩
+    · exact ⟨a, c, by simp [isZ, ha], ha⟩
+
+/-- The LAPACK contract of `roots_high_partial`, derived from two narrower assumptions about the
+    list `eig` returned for the companion row of the shifted polynomial:
+    (A) spectral — a real number is a (real) member of `eig` iff it is a root of the characteristic
+        polynomial `xⁿ − row(x)` of the companion matrix;
+    (B) ordering — the first `k` entries are the exact zeros contributed by the `k` shifted-out
+        leading coefficients, and a further exact zero is present iff `p(0) = 0`. -/
+theorem contract_of_spectral (eig : List (F × F)) (c : List F) (hnz : ∃ x ∈ c, x ≠ 0)
+    (A : ∀ x : F, (x, 0) ∈ eig ↔
+      x ^ (@companionRow F _ _ (c.dropWhile isZ ++ List.replicate (leadZeros c) 0)).length
+        - eval x (toPoly (@companionRow F _ _ (c.dropWhile isZ ++ List.replicate (leadZeros c) 0))) = 0)
+    (B1 : ∀ z ∈ eig.take (leadZeros c), z = (0, 0))
+    (B2 : ((0 : F), (0 : F)) ∈ eig.drop (leadZeros c) ↔ evalC c 0 = 0) :
+    ∀ x : F, (∃ z ∈ eig.drop (leadZeros c), z.2 = 0 ∧ z.1 = x) ↔ evalC c x = 0 := by
+  intro x
+  have hmem : (∃ z ∈ eig.drop (leadZeros c), z.2 = 0 ∧ z.1 = x) ↔ (x, 0) ∈ eig.drop (leadZeros c) := by
+    constructor
+    · rintro ⟨⟨z1, z2⟩, hz, h2, h1⟩
+      simp only at h1 h2; subst h1; subst h2; exact hz
+    · intro h; exact ⟨(x, 0), h, rfl, rfl⟩
+  rw [hmem]
+  by_cases hx : x = 0
+  · subst hx; exact B2
+  · obtain ⟨c0, rest, hd, hc0⟩ := dropWhile_head c hnz
+    have hsplit : (x, (0 : F)) ∈ eig ↔ (x, (0 : F)) ∈ eig.drop (leadZeros c) := by
+      conv_lhs => rw [← List.take_append_drop (leadZeros c) eig]
+      rw [List.mem_append]
+      constructor
+      · rintro (h | h)
+        · have := B1 _ h
+          simp only [Prod.mk.injEq] at this
+          exact absurd this.1 hx
+        · exact h
+      · exact Or.inr
+    rw [← hsplit, A x]
+    have hrow := toPoly_companionRow c0 (rest ++ List.replicate (leadZeros c) 0) hc0
+    have hsh := toPoly_shifted c
+    rw [hd] at hsh A
+    simp only [List.cons_append] at hsh hrow ⊢
+    rw [hd]
+    simp only [List.cons_append]
+    have e1 : eval x (toPoly (c0 :: (rest ++ List.replicate (leadZeros c) 0))) =
+        c0 * (x ^ (rest ++ List.replicate (leadZeros c) 0).length
+          - eval x (toPoly (@companionRow F _ _ (c0 :: (rest ++ List.replicate (leadZeros c) 0))))) := by
+      rw [← hrow]; simp
+    have e2 : eval x (toPoly (c0 :: (rest ++ List.replicate (leadZeros c) 0))) = evalC c x * x ^ leadZeros c := by
+      rw [hsh, eval_mul, eval_pow, eval_X, eval_toPoly, evalC_eq_horner']
+    have hlen : (@companionRow F _ _ (c0 :: (rest ++ List.replicate (leadZeros c) 0))).length
+        = (rest ++ List.replicate (leadZeros c) 0).length := by simp [companionRow]
+    rw [hlen]
+    constructor
+    · intro h
+      rw [h, mul_zero] at e1
+      rw [e1] at e2
+      rcases mul_eq_zero.mp e2.symm with h | h
+      · exact h
+      · exact absurd (pow_eq_zero_iff (by intro hk; rw [hk] at h; simp at h) |>.mp h) hx
+    · intro h
+      rw [h, zero_mul] at e2
+      rw [e2] at e1
+      exact (mul_eq_zero.mp e1.symm).resolve_left hc0
 end PMV.Poly
